@@ -247,6 +247,6 @@ def check_any(ctx, case):
 
 FAMILIES = [
     Family('unit-vectors', check_any, enumerate=enum_unit),
-    Family('shipped', check_any, strategy=lambda tier: shipped_case(), n=(1200, 25000)),
-    Family('synthetic', check_any, strategy=lambda tier: synthetic_case(), n=(800, 20000)),
+    Family('shipped', check_any, strategy=lambda tier: shipped_case(), n=(1200, 100000)),
+    Family('synthetic', check_any, strategy=lambda tier: synthetic_case(), n=(800, 80000)),
 ]
